@@ -21,6 +21,9 @@ CLAIMED = {
  "C13": ("guard-dominance on part/proof/body checks + encoder/decoder sibling field-flow agreement + memo-key effect-set coverage + constant-table check of Merkle prefixes",
          "Decides that parts enter a part set only behind index, slot, proof and index-binding guards; that proof verification, Block.ValidateBasic and the proposal-block adoption path are complete checklists; that the header encoder covers every field and all hand-written codecs agree field by field; and that the validation memo key covers what the block hash does not. Does not decide byte-identical reassembly for arbitrary arrival orders.",
          "DESIGN.md §4 C13"),
+ "C18": ("guard-dominance (decode/validate before use, bounds checklists), failure-side ordering (peer stopped before return), nil-tolerance of callees on possibly-nil receivers, lock pairing over all paths, who-may-write of the bit-array representation",
+         "Decides the structural defences against hostile peer input: recover-based containment in the receive routine, decode-then-validate dominance in all five reactors, complete per-message bound checklists (including the bit-array representation invariant and the proposal part count), capacity-guarded reassembly and framing, nil-safe use of the initial height's nil last commit, and release of every lock on every path in 17 packages. Does not decide absence of every implicit run-time panic.",
+         "DESIGN.md §4 C18"),
  "C03": ("guard-dominance + typestate constants + once-per-path ordering + who-may-sign call-site sets",
          "Decides, for every path through the consensus step functions, that signing happens only from the state machine, at most once per step, behind the step guards, the polka guard and the lock guard, and that validateBlock is a complete checklist; does not decide what the vote sets contain at run time.",
          "DESIGN.md §4 C03"),
